@@ -114,9 +114,9 @@ type crashSignal struct{ at int }
 // as on a real LevelDB; a Commit is many batch writes, so a crash inside it is torn across stores).
 type CrashDB struct {
 	dbm.DB
-	armed    bool
+	armed     bool
 	countdown int
-	Writes   int // batch writes since last ResetCount
+	Writes    int // batch writes since last ResetCount
 }
 
 func NewCrashDB() *CrashDB { return &CrashDB{DB: dbm.NewMemDB()} }
